@@ -43,6 +43,12 @@ func (h *Handler) BindContext(ctx context.Context, server core.Server) {
 
 // Handler for mock.
 func (h *Handler) Handler(ctx context.Context, address string, request []byte) (response []byte, err error) {
+	// the request is handled on a goroutine of the mock transport: a panic would end the process.
+	defer func() {
+		if e := recover(); e != nil {
+			response, err = nil, core.NewPanicError(e)
+		}
+	}()
 	if len(request) > h.Service.MaxRequestLength {
 		return nil, core.ErrRequestEntityTooLarge
 	}
